@@ -22,6 +22,7 @@
       keeper state that is dropped.
 -/
 import HaqqModel.Model.StateDB
+import HaqqModel.Generated.Facts
 
 namespace Haqq.SDB
 
@@ -540,6 +541,14 @@ def applyTx (k : Keeper) (run : Keeper → Keeper × Bool) : Keeper :=
 theorem failed_tx_discards_everything (k : Keeper) (run : Keeper → Keeper × Bool) (h : (run k).2 = true) :
     applyTx k run = k := by
   simp [applyTx, h]
+
+/-- `applyTx` is what ApplyTransaction does (regenerated facts): the message runs on a branch of the state whenever the
+    keeper has hooks, app.go installs hooks, and the one `commit()` of that branch is reached only when the message did
+    not fail and the hooks returned no error — whatever the destination of the transaction is (contract, precompile,
+    plain account) -/
+theorem failed_tx_runs_on_a_dropped_branch :
+    Facts.evmApplyTxBranchCondition = "k.hooks != nil" ∧ Facts.evmApplyTxCommitsOnlyOnSuccess = true ∧
+    Facts.appInstallsEvmHooks = true := by decide
 
 def k0 : Keeper := { exist := fun a => a == 0, bal := fun a => if a = 0 then 100 else 0, nonce := fun _ => 0,
                      store := fun _ _ => 0, supply := 0 }
